@@ -316,6 +316,40 @@ def r7_transports_send_the_text_they_are_given(ctx):
     R.floor("C20.R7", n, 2, "hand-over sites of the client transports")
 
 
+def r8_builders_hand_out_their_bytes(ctx):
+    """what the builders wrote is what the caller gets: (a) ParamsBuilder::build turns its byte buffer into the RawValue's
+    text by reinterpreting the bytes as UTF-8 (String::from_utf8 / from_utf8_unchecked of the `bytes` field) - a per-byte
+    `char::from` widens every byte to a Latin-1 code point and mangles all non-ASCII text while the result stays valid
+    JSON; (b) ToRpcParams for ArrayParams / ObjectParams is `Ok(self.0.build())` with no further, fallible step (a
+    post-check that reads names as borrowed `&str` rejects every name that needs a JSON escape); (c) nothing in
+    core::params decodes a string as a borrowed `&str` (= C15.R7)."""
+    F, R = ctx.F, ctx.R
+    tr = ctx.tracer(follow_callers=False, follow_fields=False, inline_calls=False)
+    b = F.one(PB + "build$")
+    R.fn(b)
+    fs = b.calls_to(r"RawValue::from_string$")
+    R.floor("C20.R8", len(fs), 1, "RawValue::from_string in ParamsBuilder::build")
+    for c in fs:
+        lv = tr.origins(b, c.args[0])
+        conv = [l for l in lv if l.kind == "call" and re.search(r"String::from_utf8(_unchecked)?$", l.detail.get("callee") or "")]
+        ok = bool(lv) and len(conv) == len(lv)
+        if ok:
+            for l in conv:
+                src = tr.origins(b, l.detail["args"][0])
+                ok = ok and bool(src) and all((x.kind in ("field", "param") and "bytes" in flow.leaf_str(x)) or "bytes" in " ".join(x.chain) for x in src)
+        R.check(ok, "C20.R8", "build:text-is-the-buffer", "build() hands out the buffer's bytes as UTF-8 text", "ParamsBuilder::build does not turn its byte buffer into text by String::from_utf8(_unchecked) of `bytes` (%s): the serialised values are re-encoded on the way out - non-ASCII characters come out as other characters" % [flow.leaf_str(l)[:60] for l in lv], where(c))
+    for ty in ("ArrayParams", "ObjectParams"):
+        for x in F.find(r"^<jsonrpsee_core::params::%s as jsonrpsee_core::traits::ToRpcParams>::to_rpc_params$" % ty):
+            R.fn(x)
+            calls = [c for y in F.nested(x) for c in y.calls if not c.exp]
+            builds = [c for c in calls if re.search(r"ParamsBuilder::build$", c.name() or "")]
+            others = [c for c in calls if c not in builds]
+            R.check(len(builds) == 1 and not others, "C20.R8", "%s:to_rpc_params-is-build" % ty, "%s::to_rpc_params is build() and nothing else" % ty, "%s::to_rpc_params does more than hand out build()'s result (%s): a step after the builder can fail or alter params that every insert accepted" % (ty, sorted({short(c.name()) for c in others})), "%s:%d" % (x.file, x.lo))
+    from . import c15
+    n = c15._borrowed_str_scan(F, R, r"^<?jsonrpsee_core::(params|traits)", "C20.R8")
+    R.ok("C20.R8", "no-borrowed-str", "%d deserialisation sites inspected in core::params / core::traits" % n)
+
+
 def rmacro_rpc_params_reports_failures(ctx):
     """`an insert that fails reports an error`: the rpc_params! macro (analysed at its use sites in the corpus) inserts every
     argument once and does not continue past a failed insert - the Err arm of each ArrayParams::insert never reaches the
@@ -344,7 +378,7 @@ def rser_request_envelope_keeps_params(ctx):
     c15.r12_derived_writers_mirror_their_readers(ctx)
 
 
-LIB_RULES = [r7_transports_send_the_text_they_are_given, r6_builders_do_not_panic, rser_request_envelope_keeps_params, rkey_named_keys_are_json_strings, r1_rollback, r2_build, r3_impls, r4_batch_builder, r5_builders_wrap_their_own_kind]
+LIB_RULES = [r8_builders_hand_out_their_bytes, r7_transports_send_the_text_they_are_given, r6_builders_do_not_panic, rser_request_envelope_keeps_params, rkey_named_keys_are_json_strings, r1_rollback, r2_build, r3_impls, r4_batch_builder, r5_builders_wrap_their_own_kind]
 CONFIGS_QUICK = ["libs-all", "corpus"]
 CONFIGS_THOROUGH = ["libs-all", "facade-full", "corpus"]
 
